@@ -59,6 +59,7 @@ type Contract struct {
 	Line      int
 	Notes     []string
 	Lets      []Clause // let name = expr (evaluated in pre-state), Label holds the name
+	OpaqueCalls bool
 	Callsites []Clause // callsite <target> [label] expr: must hold whenever the function body calls <target> (Label = label, File/Line; target kept in Target)
 	BodyReq   []Clause // bodyrequires: assumed when the body of an `assumed` contract is checked for its call-site conditions (callers need not establish it)
 	Macros    []Clause // macro name = text: textual abbreviation, expanded in every clause of this contract (evaluated where it is used)
@@ -70,7 +71,7 @@ type Contract struct {
 	Reveal    []string // opaque spec functions whose definition this function's proof may use
 }
 
-var kwRe = regexp.MustCompile(`^(axiom|func|props|requires|ensures|lemma|reveal|summary|modifies|loop|decreases|assumed|pure|nosafety|inline|maypanic|note|let|macro|callsite|bodyrequires|counts|allocates|bounded-standin|havoc)\b`)
+var kwRe = regexp.MustCompile(`^(axiom|func|props|requires|ensures|lemma|reveal|summary|modifies|loop|decreases|assumed|pure|nosafety|inline|maypanic|note|let|macro|callsite|bodyrequires|counts|allocates|bounded-standin|havoc|opaquecalls)\b`)
 var funcRe = regexp.MustCompile(`^func\s+(\([^)]*\)\.)?([A-Za-z0-9_./$#\-]+)\s*\(([^)]*)\)\s*(\(([^)]*)\))?\s*$`)
 
 // parseContractFile reads contracts from a file. pkgPath qualifies
@@ -185,6 +186,11 @@ func parseContractFile(path, pkgPath string) ([]*Contract, []Clause, error) {
 			if rest != "nothing" && rest != "" {
 				cur.Modifies = append(cur.Modifies, splitTop(rest, ',')...)
 			}
+		case "opaquecalls":
+			// every call in the body is treated as a call of an unknown function (no precondition
+			// obligations, everything havocked, results unconstrained): for contracts that are about
+			// the control flow and the call history only
+			cur.OpaqueCalls = true
 		case "counts":
 			// counts <ghost>: every call of this function increments the integer ghost (a call counter:
 			// a pure specification device, nothing is assumed about the code)
@@ -282,7 +288,18 @@ func parseContractFile(path, pkgPath string) ([]*Contract, []Clause, error) {
 
 // expandMacros substitutes macro names (whole identifiers) by their
 // parenthesised text; a macro may use macros defined before it.
+var historyRe = regexp.MustCompile(`\b(calls|result|allok|athead)\(`)
+
 func (ct *Contract) expandMacros() {
+	// postconditions over the activation's own call history are proved at function exit and are
+	// meaningless to a caller: not exported
+	defer func() {
+		for i := range ct.Ensures {
+			if historyRe.MatchString(ct.Ensures[i].Text) {
+				ct.Ensures[i].Internal = true
+			}
+		}
+	}()
 	if len(ct.Macros) == 0 {
 		return
 	}
@@ -479,6 +496,7 @@ func splitTopKeep(s string, sep byte) []string {
 
 var resultRe = regexp.MustCompile(`\bresult\("([^"]+)"`)
 var strLitRe = regexp.MustCompile(`"[^"]*"`)
+var allokRe = regexp.MustCompile(`\ballok\("([^"]+)",\s*(\d+)\)`)
 var callsRe = regexp.MustCompile(`\bcalls\("([^"]+)"\)`)
 
 // allClauseTexts: the text of every clause of the contract (macros included).
